@@ -30,7 +30,8 @@ def run_one(name, meta, tier):
     env = dict(os.environ)
     env["CARGO_NET_OFFLINE"] = "true"
     env["CARGO_TARGET_DIR"] = os.path.join(VERIF, ".work", "kani-target")
-    cmd = ["cargo", "kani", "--harness", name, "--output-format", "regular"] + m.get("args", [])
+    module = "shims" if name.startswith("shim_") else "steps" if name.startswith("steps_") else "tails" if name.startswith("tail_") else "models"
+    cmd = ["cargo", "kani", "--harness", "%s::%s" % (m.get("module", module), name), "--exact", "--output-format", "regular"] + m.get("args", [])
     res = {"harness": name, "bound": m.get("bound", "unspecified"), "kind": m.get("kind", "bounded"),
            "what": m.get("what", ""), "replay_hint": m.get("replay_hint")}
     try:
@@ -47,8 +48,8 @@ def run_one(name, meta, tier):
     res["checks"] = int(mm.group(2)) if mm else 0
     failed = []
     # failed checks: "Check N: name\n\t - Status: FAILURE\n\t - Description: ..."
-    for blk in re.finditer(r"Check \d+: (\S+)\n\s*- Status: FAILURE\n\s*- Description: \"?(.*?)\"?\n\s*- Location: (.*)", out):
-        failed.append("%s | %s | %s" % (blk.group(1), blk.group(2), blk.group(3)))
+    for blk in re.finditer(r"Failed Checks: (.*)\n\s*File: \"([^\"]*)\", line (\d+), in (\S+)", out):
+        failed.append("%s | %s:%s | %s" % (blk.group(1).strip().strip('"'), blk.group(2), blk.group(3), blk.group(4)))
     covers = re.findall(r"Status: (SATISFIED|UNSATISFIABLE|UNREACHABLE)\n\s*- Description: \"?(cover[^\n\"]*)", out)
     res["covers"] = ["%s:%s" % (s, d) for s, d in covers]
     if "VERIFICATION:- SUCCESSFUL" in out:
